@@ -487,13 +487,21 @@ class QMI_Context:
         # Start message router.
         self._message_router.start()
 
-        # Start TCP server if a TCP server port is specified in the configuration.
-        ctxcfg = self.get_context_config()
-        if ctxcfg.tcp_server_port is not None:
-            self._message_router.start_tcp_server(ctxcfg.tcp_server_port)
+        try:
+            # Start TCP server if a TCP server port is specified in the configuration.
+            ctxcfg = self.get_context_config()
+            if ctxcfg.tcp_server_port is not None:
+                self._message_router.start_tcp_server(ctxcfg.tcp_server_port)
 
-        # The UDP responder is mandatory.
-        self._message_router.start_udp_responder(self.DEFAULT_UDP_RESPONDER_PORT)
+            # The UDP responder is mandatory.
+            self._message_router.start_udp_responder(self.DEFAULT_UDP_RESPONDER_PORT)
+
+        except BaseException:
+            # Starting failed (for example because the TCP port is in use).
+            # Stop the message router again, so that its thread and any socket
+            # that was already opened are not left behind.
+            self._message_router.stop()
+            raise
 
         # Mark that we're now active.
         self._active = True
@@ -526,6 +534,16 @@ class QMI_Context:
 
         self._message_router.stop()
 
+        self._stop_rpc_objects()
+
+        # Update number of active contexts.
+        _active_context_counter.dec()
+
+        qmi.object_registry.unregister(self._oid)
+
+    def _stop_rpc_objects(self) -> None:
+        """Stop all RPC objects that still exist in this context (including the internal ``$context`` object)."""
+
         with self._rpc_object_map_lock:
 
             # Mark that we're now inactive.
@@ -544,10 +562,20 @@ class QMI_Context:
             self.unregister_message_handler(manager)
             manager.stop()
 
-        # Update number of active contexts.
-        _active_context_counter.dec()
+    def _discard(self) -> None:
+        """Release all resources of this context after a failed attempt to start it.
 
-        qmi.object_registry.unregister(self._oid)
+        This function is intended for internal use within QMI (it is called by ``qmi.start()``).
+        After this call the context must not be used anymore.
+        """
+        if self._active:
+            # The context itself was started; stop it the normal way.
+            self.stop()
+        else:
+            # The context was never active; only the internal RPC object exists.
+            self._used = True
+            self._stop_rpc_objects()
+            qmi.object_registry.unregister(self._oid)
 
     def shutdown_requested(self) -> bool:
         """Return True if the context has received a shutdown request via RPC.
